@@ -8,6 +8,14 @@ CHECKS = [
            'Exhaustive within the stated vector set, which is built so that every field carries a distinct value (cross-wiring) '
            'and zero/large values occur in every position.',
       note='Values outside the vector set (other magnitudes) are not covered; oracle reads instance __dict__ directly.'),
+ dict(property_id='C06', engine='E2-enum', level='exploration',
+      technique='model checking: exhaustive enumeration of all typed graphs up to a node bound x all query arguments, oracle from edge lists',
+      text='All typed graphs up to 3 nodes (quick; 4 nodes up to node renaming for one vocabulary) / 4 nodes and restricted 5 (thorough), '
+           'with every class assignment and every has/connects/none labelling of node pairs, are loaded into both in-memory stores next '
+           'to two decoy graphs sharing the same NodeIDs; every first-neighbour, two-hop, shortest-path (with and without relation), '
+           'path-with-hops and derived-helper query is executed and compared with an oracle computed from the node and edge lists.',
+      note='Graph sizes beyond the bound are not covered. For path-with-hops only what both readings of "loop-free" agree on is asserted. '
+           'Multiplicity of duplicate answers of helper queries is not judged.'),
 ]
 _claimed = {c['property_id'] for c in CHECKS}
 NOT_APPLICABLE = [dict(property_id=p, reason='check not built yet in this revision (work in progress; model checking applies, see DESIGN.md)')
